@@ -232,3 +232,34 @@ func vsum(b []byte) uint32 {
 	}
 	return h
 }
+
+// VH_VAL_Teletext: the NextData provider against the real demultiplexer: the engine reads the schedules through the
+// stub, the native run multiplexes the same data into a transport stream (astits.Muxer) and reads it through the real
+// astits.Demuxer; both must observe the same cues.
+func VH_VAL_Teletext() {
+	for k := 0; k < 8; k++ {
+		vc06Schedule(k, []int64{900000, 990000, 1080000, 1260000})
+		s, err := ReadFromTeletext(bytes.NewReader(vtsBytes()), TeletextOptions{PID: 100, Page: 888})
+		vobserve(fmt.Sprintf("teletext schedule %d", k), vdigest(s, err))
+	}
+}
+
+// VH_VAL_TTML: the XML decode provider against the real encoding/xml: the engine hands the decoded-value model to
+// ReadFromTTML through the stub, the native run renders the same model as XML and decodes it for real.
+func VH_VAL_TTML() {
+	for k := 0; k < 16; k++ {
+		doc, items, _, _, _ := vc03Doc(k, 7000000000)
+		vttmlDoc, vttmlItems, vttmlItemsPos = doc, []TTMLInItems{items}, 0
+		s, err := ReadFromTTML(bytes.NewReader(vrenderTTML(doc, items)))
+		d := vdigest(s, err)
+		if err == nil {
+			for _, id := range []string{"s0", "s1", "s2"} {
+				if st := s.Styles[id]; st != nil && st.Style != nil {
+					d += " " + id + "<-" + st.Style.ID
+				}
+			}
+			d += " lang=" + s.Metadata.Language + " title=" + s.Metadata.Title
+		}
+		vobserve(fmt.Sprintf("ttml model %d", k), d)
+	}
+}
